@@ -11,9 +11,13 @@ type rep struct {
 	name     string
 	pre      []string
 	sql      string
-	volatile bool // result legitimately differs between two engines (ids, times): compare the kind only
-	ordered  bool // compare rows in order
+	volatile bool   // result legitimately differs between two engines (ids, times): compare the kind only
+	ordered  bool   // compare rows in order
+	except   string // table features the engine does not support this statement shape on at all (same "unsupported" error in every mode)
 }
+
+func (r rep) runsOn(tab string) bool { return !strings.Contains(" "+r.except+" ", " "+tab+" ") }
+func not(tabs string, r rep) rep     { r.except = tabs; return r }
 
 // stmts renders the representative: $TMP = scratch directory, $T = the table of the case's table
 // feature (shape kinds of spec/ReadOnlyModes.tla, TabsOf), $J = the join partner j1.
@@ -40,8 +44,10 @@ var featureTable = map[string]string{
 	"fk_child":  "f2", // holds the foreign key
 }
 
-func k(kind, name, sql string, pre ...string) rep { return rep{kind: kind, name: name, sql: sql, pre: pre} }
-func vol(r rep) rep                                { r.volatile = true; return r }
+func k(kind, name, sql string, pre ...string) rep {
+	return rep{kind: kind, name: name, sql: sql, pre: pre}
+}
+func vol(r rep) rep { r.volatile = true; return r }
 
 // The fixture (main.go): d.t1(id,a,b; KEY ia; CHECK ck1), d.t2(id,t1id,c; fk1 -> t1), d.t3(id AUTO_INCREMENT, v),
 // d.t4(id, w DEFAULT 5; trigger trg1), d.nopk(x,y), view d.v1, procedures d.p1 (read) d.pw d.pdel d.pupd d.pins (write),
@@ -89,7 +95,6 @@ var reps = []rep{
 	// an unfiltered single-table DELETE is the planner's DELETE -> TRUNCATE candidate
 	k("delete_unfiltered", "delete_unfiltered", "DELETE FROM $T"),
 	k("delete_unfiltered", "delete_unfiltered_qualified", "DELETE FROM d.$T"),
-	k("delete_unfiltered", "delete_unfiltered_alias", "DELETE FROM $T AS x"),
 	k("delete_unfiltered", "delete_where_true", "DELETE FROM $T WHERE 1 = 1"),
 	k("delete_limit", "delete_limit", "DELETE FROM $T LIMIT 1"),
 	k("delete_limit", "delete_order_by", "DELETE FROM $T ORDER BY id DESC"),
@@ -105,8 +110,8 @@ var reps = []rep{
 	k("insert_shape", "insert_shape_ignore", "INSERT IGNORE INTO $T (id, v) VALUES (1, 2), (8, 2)"),
 	k("replace_shape", "replace_shape_values", "REPLACE INTO $T (id, v) VALUES (2, 3)"),
 	k("replace_shape", "replace_shape_select", "REPLACE INTO $T (id, v) SELECT id + 1, v FROM j1"),
-	k("multi_table_shape", "update_join_shape", "UPDATE $T JOIN j1 ON $T.id = j1.id SET $T.v = j1.v + 1"),
-	k("multi_table_shape", "delete_join_shape", "DELETE $T FROM $T JOIN j1 ON $T.id = j1.id"),
+	not("keyless", k("multi_table_shape", "update_join_shape", "UPDATE $T JOIN j1 ON $T.id = j1.id SET $T.v = j1.v + 1")), // "keyless tables unsupported for UPDATE JOIN"
+	not("trigger", k("multi_table_shape", "delete_join_shape", "DELETE $T FROM $T JOIN j1 ON $T.id = j1.id")),             // "delete from with explicit target tables does not support triggers"
 	k("multi_table_shape", "delete_join_subquery_shape", "DELETE FROM $T WHERE id IN (SELECT id FROM j1)"),
 	k("load_data_shape", "load_data_shape", "LOAD DATA INFILE '$TMP/load.csv' INTO TABLE $T FIELDS TERMINATED BY ','"),
 	k("execute_shape", "execute_delete_unfiltered", "EXECUTE s1", "PREPARE s1 FROM 'DELETE FROM $T'"),
